@@ -59,7 +59,7 @@ class Hist:
         auth = auth if auth is not None else R.rand_bytes(rng, 16)
         attrs = [(1, user)] if (user is not False) else []
         if code == 1 and (pwd if pwd is not None else rng.random() < 0.5):
-            plain = R.rand_bytes(rng, rng.choice([1, 8, 16, 17, 32, 128]))
+            plain = pwd if isinstance(pwd, bytes) else R.rand_bytes(rng, rng.choice([1, 8, 16, 17, 32, 128]))
             attrs.append((2, R.pwd_encrypt(plain, c["secret"], auth)))
         if chap:
             attrs.append((3, R.rand_bytes(rng, 17)))
